@@ -466,7 +466,7 @@ def _c11_env_cache(m):
             for d in l:
                 if d["name"] not in tainted and any(("{{.%s}}" % t) in d["text"] or (d["kind"] in ("ref", "envsh") and d["text"] == t) for t in tainted):
                     tainted.add(d["name"]); changed = True
-    pool = ["VA", "VB", "VC", "VD", "VE", "VF", "VG"]
+    pool = ["VA", "VB", "VC", "VD", "VE", "VF", "VG", "TASK_DIR", "TASK"]  # = vPool of harness/vars.go (the answer has one value per name)
     a, b = m["impl"].split(), m["model"].split()
     if len(a) != len(b) or len(a) != len(pool):
         return False
